@@ -1267,6 +1267,11 @@ def oracle_c09(ctx, focus):
                 reqs.append("occ\t%s\t%s\t%s" % (lang, th, esc(t)))
         outs = run_impl(ctx, "c09" + lang, reqs)
         linkset = set(link)
+        # "potential linking words": a word the interpreter answers `Incomplete` on an empty builder (the conjunctions `en`,
+        # `und`, `e` ... standing alone) is skipped by the scanner like a linking word, never a breaker
+        cand_ = sorted({w.lower() for t in texts for w in re.findall(r"[^\W\d_]+", t)})
+        inc_ = run_impl(ctx, "c09i" + lang, ["apply\t%s\t%s\t|0|0|0|-" % (lang, esc(w)) for w in cand_])
+        linkset |= {w for w, a in zip(cand_, inc_) if a.startswith("ERR:Incomplete")}
         for ti, t in enumerate(texts):
             res = [parse_occ_answer(outs[ti * len(thrs) + j]) for j in range(len(thrs))]
             n += len(thrs)
@@ -1592,6 +1597,23 @@ def oracle_c11(ctx, focus):
 # ------------------------------------------------------------------------------------------------
 # C13: facade = concrete interpreter; ISO lookup
 
+def stretched_tokens(lang, bank, zs, nwords=5):
+    """single tokens of (about) z bytes that may still be numbers: a number word stretched by a run of one ending letter,
+    hyphen / glued compounds with the conjunction or the word itself repeated. zs: sizes (srcmine.sizes + fixed ones)."""
+    cjw = {"en": "and", "fr": "et", "es": "y", "pt": "e", "it": "e", "de": "und", "nl": "en"}[lang]
+    singles = [p_ for p_ in bank if " " not in p_][:: max(1, len(bank) // nwords)][:nwords] or bank[:2]
+    out = []
+    for w_ in singles:
+        lw = len(w_.encode("utf-8"))
+        for z in zs:
+            k = max(1, z - lw)
+            out += [w_ + c_ * k for c_ in "sen"]
+            out += [w_ + ("-" + cjw) * max(1, (z - 2 * lw - 1) // (len(cjw) + 1)) + "-" + w_,
+                    w_ + cjw * max(1, (z - 2 * lw) // len(cjw)) + w_,
+                    (w_ + "-") * max(1, z // (lw + 1)) + w_]
+    return out
+
+
 def oracle_c13(ctx, focus):
     failures, n, distinct = [], 0, set()
     for li, lang in enumerate(LANGS):
@@ -1628,6 +1650,11 @@ def oracle_c13(ctx, focus):
             toks = " ".join("%s,%s,%d,%d,%d" % (esc(pad(w)), esc(pad(w).lower()), rng.below(10) == 0, 0, 0) for w in t.split(" "))
             base.append("scan\t{L}\t%s\t%s" % (th, toks))
             base.append("annot\t{L}\t%s" % toks)
+        # single tokens whose size is a number mined from the source (srcmine.py) and that may still be numbers
+        for tok_ in stretched_tokens(lang, bank, [300, 2000] + _srcmine.sizes(41, 70000), nwords=3):
+            base.append("apply\t{L}\t%s\t|0|0|0|-" % esc(tok_))
+            base.append("val\t{L}\t%s" % esc(tok_))
+            base.append("text\t{L}\t%s\t%s" % (THR0, esc("x " + tok_ + " y")))
         reqs = []
         for b in base:
             reqs += [b.replace("{L}", lang), b.replace("{L}", "L:" + lang), b.replace("{L}", "G:" + lang)]
@@ -1956,6 +1983,21 @@ def oracle_c17(ctx, focus):
                              "val\t%s\t%s" % (lang, esc(t)), "val\t%s\t%s" % (lang, esc(w)),
                              "text\t%s\t%s\t%s" % (lang, th, esc(w))]
                     meta.append((t, w))
+        # a blank run of every mined size (srcmine.py) INSIDE a spelled number, between two numbers and at the edges
+        multi_ = [p_ for p_ in bank if " " in p_][:: max(1, len(bank) // 6)][:6] or bank[:2]
+        for z in _srcmine.sizes(41, 70000):
+            for ph in multi_[: (6 if z < 5000 else 2)]:
+                for blank in (" ", "\u00a0", "\n"):
+                    t = "x " + ph + " y"
+                    k_ = ph.index(" ") if " " in ph else 0
+                    for w in ("x " + ph[:k_] + blank * z + ph[k_ + 1:] + " y" if " " in ph else None, "x" + blank * z + ph + blank * z + "y"):
+                        if w is None:
+                            continue
+                        th = rng.choice(thrs)
+                        reqs += ["occ\t%s\t%s\t%s" % (lang, th, esc(t)), "occ\t%s\t%s\t%s" % (lang, th, esc(w)),
+                                 "val\t%s\t%s" % (lang, esc(t)), "val\t%s\t%s" % (lang, esc(w)),
+                                 "text\t%s\t%s\t%s" % (lang, th, esc(w))]
+                        meta.append((t, w))
         outs = run_impl(ctx, "c17" + lang, reqs)
         for i, (t, w) in enumerate(meta):
             n += 5
